@@ -304,41 +304,51 @@ def scenarios(tier):
     for cnt in (None, 1, 2):
         add('2p-due-c%s-overlap' % cnt, [TR('t1', count=cnt)],
             [(0, 60), (1, 60), (0, 120)], rp=True,
-            bound=3 if quick else None)
+            bound=None)
     add('2p-first-only-overlap', [TR('t1', pattern=None, first=120)],
-        [(0, 120), (1, 120)], rp=True, bound=3 if quick else None)
+        [(0, 120), (1, 120)], rp=True, bound=None)
+    add('2p-crash-c2-overlap', [TR('t1', count=2)],
+        [(0, 60), (1, 60), (1, 120)], crash=0, rp=True, bound=None)
+    add('2p-lag-c2-overlap', [TR('t1', count=2)],
+        [(0, 600), (1, 600), (1, 660)], rp=True, bound=None)
+    add('3p-two-triggers-overlap',
+        [TR('t1', 'projA', count=1), TR('t2', 'projB')],
+        [(0, 60), (1, 60), (2, 60)], rp=True, bound=None if not quick else 3)
+    add('2p-first+pattern-c2-overlap', [TR('t1', first=90, count=2)],
+        [(0, 90), (1, 90), (0, 150), (1, 150)], rp=True,
+        bound=None if not quick else 3)
     add('3p-due-c1-overlap', [TR('t1', count=1)],
-        [(0, 60), (1, 60), (2, 60)], rp=True, bound=2 if quick else 4)
+        [(0, 60), (1, 60), (2, 60)], rp=True, bound=None)
 
     for cnt in (None, 1, 2):
         c = 'c%s' % cnt
         add('1p-due-' + c, [TR('t1', count=cnt)], [(0, 60), (0, 120)])
         add('2p-due-' + c, [TR('t1', count=cnt)],
             [(0, 60), (1, 60), (0, 120), (1, 120)],
-            bound=None if not quick else 3)
+            bound=None)
         add('2p-late-' + c, [TR('t1', count=cnt)],
-            [(0, 125), (1, 125), (0, 185)], bound=None if not quick else 3)
+            [(0, 125), (1, 125), (0, 185)], bound=None)
         add('2p-lag-' + c, [TR('t1', count=cnt)],
-            [(0, 600), (1, 600), (1, 660)], bound=None if not quick else 3)
+            [(0, 600), (1, 600), (1, 660)], bound=None)
     add('2p-every2', [TR('t1', pattern='*/2 * * * *')],
         [(0, 120), (1, 120), (0, 240)])
     add('2p-first-only', [TR('t1', pattern=None, first=120)],
         [(0, 60), (0, 120), (1, 120), (0, 180)])
     add('2p-first+pattern-c2', [TR('t1', first=90, count=2)],
         [(0, 90), (1, 90), (0, 150), (1, 150), (0, 210)],
-        bound=3 if quick else None)
+        bound=None)
     add('2p-two-projects', [TR('t1', 'projA'), TR('t2', 'projB', count=1)],
-        [(0, 60), (1, 60)], bound=3 if quick else None)
+        [(0, 60), (1, 60)], bound=None)
     add('2p-same-name-two-projects',
         [TR('t1', 'projA'), dict(TR('t1', 'projB'), name='t1')],
-        [(0, 60), (1, 60)], bound=2 if quick else None)
+        [(0, 60), (1, 60)], bound=None)
     add('3p-due', [TR('t1', count=2)], [(0, 60), (1, 60), (2, 60), (0, 120),
                                         (1, 120)],
-        bound=2 if quick else 4)
+        bound=None)
     add('2p-crash', [TR('t1', count=2)], [(0, 60), (1, 60), (1, 120)],
-        crash=0, bound=2 if quick else None)
+        crash=0, bound=None)
     add('2p-crash-nocount', [TR('t1')], [(0, 60), (1, 60), (1, 120)],
-        crash=0, bound=2 if quick else None)
+        crash=0, bound=None)
     return S
 
 
